@@ -44,9 +44,11 @@ DT = {"bool": "bool", "int8": "i8", "int16": "i16", "int32": "i32", "int64": "i6
 DTYPES = list(DT)
 FLOATS = ["float16", "float32", "float64"]
 SHAPES = [(), (1,), (3,), (0,), (2, 3), (0, 2), (1, 1), (2, 1, 2), (2, 0, 3)]
-IOS = ["path-npz", "path-noext", "pathlib-npz", "pathlib-noext", "bytesio", "openfile", "tempfile"]
+IOS = ["path-npz", "path-noext", "pathlib-npz", "pathlib-noext", "bytesio", "openfile", "tempfile", "bytesio-offset", "tempfile-offset"]
 IO_CLASS = {"path-npz": "path", "path-noext": "path", "pathlib-npz": "path", "pathlib-noext": "path",
-            "bytesio": "fileobj", "openfile": "fileobj", "tempfile": "fileobj"}
+            "bytesio": "fileobj", "openfile": "fileobj", "tempfile": "fileobj",
+            # the archive does not start at offset 0 of the file object (a caller's own header precedes it)
+            "bytesio-offset": "fileobj", "tempfile-offset": "fileobj"}
 GRADS = ["none", "scalar", "nonscalar", "seed", "seed-bcast", "nulled"]
 LIVE = ["consumer", "intermediate", "terminal-kept", "reused"]
 VIEW_IDX = ["1:", "::-1", "...", "0", "reshape", "T", ":0"]
@@ -235,6 +237,18 @@ def do_save_load(t, iomode, tag):
             keys = sorted(np.load(f).files)
             f.seek(0)
             return mg.load(f), keys
+        if iomode in ("bytesio-offset", "tempfile-offset"):
+            header = b"MYCKPT\x00\x01" * 3
+            f = _io.BytesIO() if iomode.startswith("bytesio") else tempfile.TemporaryFile(dir=d)
+            try:
+                f.write(header)
+                mg.save(f, t)
+                f.seek(len(header))
+                keys = sorted(np.load(f).files)
+                f.seek(len(header))
+                return mg.load(f), keys
+            finally:
+                f.close()
         if iomode == "tempfile":
             with tempfile.TemporaryFile(dir=d) as f:
                 mg.save(f, t)
